@@ -100,18 +100,21 @@ impl G {
             idx.truncate(k);
             idx.iter().map(|i| (t.cols[*i].name.clone(), match g.r.below(3) { 0 => Some(true), 1 => Some(false), _ => None })).collect()
         };
-        let index_of = |key: &Key| -> IndexCreateStatement {
-            let mut ix = Index::create();
+        let fill = |ix: &mut IndexCreateStatement, key: &Key| {
             if let Some(n) = &key.name { ix.name(n.as_str()); }
             if key.unique && !key.primary { ix.unique(); }
             for (c, d) in &key.cols { match d { Some(true) => { ix.col((a(c), IndexOrder::Desc)); } Some(false) => { ix.col((a(c), IndexOrder::Asc)); } None => { ix.col(a(c)); } } }
-            ix
         };
+        let index_of = |key: &Key| -> IndexCreateStatement { let mut ix = Index::create(); fill(&mut ix, key); ix };
+        // half of the tables declare their keys through ONE builder object, filled again after each call (the calls take the
+        // name and the columns out of it): the primary key first, then the unique keys — what a fresh builder per key gives
+        let reuse = self.r.chance(1, 2);
+        let mut shared = Index::create();
         if !have_pk && self.r.chance(1, 3) {
             let key = Key { name: if self.r.chance(1, 2) { Some(self.name("pk")) } else { None }, cols: pick_cols(self, &t), unique: true, primary: true, partial: false, created: false };
             // (no key over exactly the columns of a UNIQUE column: SQLite would make one automatic index for both)
             if !(key.cols.len() == 1 && t.cols.iter().any(|c| c.unique && c.name == key.cols[0].0)) {
-                st.primary_key(&mut index_of(&key));
+                if reuse { fill(&mut shared, &key); st.primary_key(&mut shared); } else { st.primary_key(&mut index_of(&key)); }
                 t.keys.push(key);
             }
         }
@@ -121,7 +124,7 @@ impl G {
             // SQLite makes no second automatic index for a key over the same columns as an existing one: keep the scenario unambiguous
             let names: Vec<&String> = key.cols.iter().map(|c| &c.0).collect();
             if t.keys.iter().any(|k| k.cols.iter().map(|c| &c.0).collect::<Vec<_>>() == names) || (names.len() == 1 && t.cols.iter().any(|c| (c.pk || c.unique) && &c.name == names[0])) { continue; }
-            st.index(&mut index_of(&key));
+            if reuse { fill(&mut shared, &key); st.index(&mut shared); } else { st.index(&mut index_of(&key)); }
             t.keys.push(key);
         }
         if self.r.chance(1, 40) {
